@@ -13,7 +13,7 @@ theorem saveLines_of_validate_false (E : FloatExt) (s : Schema) (data : List (Li
   simp only [saveLines]
   split
   · rfl
-  · simp [h, valueToScsv, bind, Except.bind, throw, throwThe, MonadExceptOf.throw]
+  · simp [saveBody, h, valueToScsv, Except.bind]
 
 theorem save_eq (E : FloatExt) (s : Schema) (data : List (List Val)) (e : Err)
     (h : saveLines E s data = .error e) : save E s data = .error e := by
@@ -113,15 +113,15 @@ theorem save_field_without_name (E : FloatExt) (d m : Str) (pre post : List Fiel
   apply save_eq
   have hany : cs.any (fun c => decide (c.length ≠ c0.length)) = false := by
     rw [List.any_eq_false]; intro c hc; simp [hlen c hc]
-  simp only [saveLines, hany, Bool.false_eq_true, if_false,
-    validate_field_without_name d m pre post f hdm hinf hpre hf, valueToScsv, bind, Except.bind]
+  simp only [saveLines, saveBody, hany, Bool.false_eq_true, if_false,
+    validate_field_without_name d m pre post f hdm hinf hpre hf, valueToScsv, Except.bind]
 
 /-! ### data-level faults -/
 
 /-- **single fault: a cell that cannot be parsed as its declared type** is re-raised as the SCSV error -/
 theorem saveCell_unparseable (E : FloatExt) (m : Str) (t : Ty) (fill : PyVal) (d : Val)
     (h : parseCell E t (pyStr E d) m fill = .error .value) : saveCell E m t fill d = .error .scsv := by
-  simp [saveCell, h, bind, Except.bind, throw, throwThe, MonadExceptOf.throw]
+  simp [saveCell, trialParse, h, Except.bind]
 
 /-- the row loop: cells before the faulty one are fine, then the fault decides -/
 theorem saveRowCells_prefix (E : FloatExt) (hE : FloatSpec E) (m : Str) (fs : List Field) (row : List Val)
@@ -165,14 +165,14 @@ theorem save_bad_row (E : FloatExt) (hE : FloatSpec E) (dc : Char) (m : Str) (fs
   apply save_eq
   have hany : cs.any (fun c => decide (c.length ≠ c0.length)) = false := by
     rw [List.any_eq_false]; intro c hc; simp [hlen c hc]
-  simp only [saveLines, hany, Bool.false_eq_true, if_false, hrows]
+  simp only [saveLines, saveBody, hany, Bool.false_eq_true, if_false, hrows]
   rcases hbad with hbad | hbad
   · have := saveRows_error E dc m good bad rest (colSpecs fs) _ hgood hbad
     simp only [colSpecs] at this
-    simp [hvalid, this, valueToScsv, bind, Except.bind]
+    simp [hvalid, this, valueToScsv, Except.bind, Except.map]
   · have := saveRows_error E dc m good bad rest (colSpecs fs) _ hgood hbad
     simp only [colSpecs] at this
-    simp [hvalid, this, valueToScsv, bind, Except.bind]
+    simp [hvalid, this, valueToScsv, Except.bind, Except.map]
 
 /-- a row with more cells than fields: `zip(strict=True)` raises after the common prefix -/
 theorem saveRowCells_too_many (E : FloatExt) (hE : FloatSpec E) (m : Str) (fs : List Field) (row : List Val)
@@ -213,6 +213,6 @@ theorem saveRowCells_unparseable (E : FloatExt) (hE : FloatSpec E) (m : Str) (fs
 parse (e.g. `"1.5"`) reaches `np.isnan(str)` and raises `TypeError`, not the SCSV error -/
 theorem saveCell_string_in_float_column (E : FloatExt) (m : Str) (fill : PyVal) (s : Str) (v : Val)
     (h : parseCell E .float s m fill = .ok v) : saveCell E m .float fill (.str s) = .error .type := by
-  simp [saveCell, pyStr, h, bind, Except.bind, pure, Except.pure, throw, throwThe, MonadExceptOf.throw]
+  simp [saveCell, trialParse, substitute, pyStr, h, Except.bind]
 
 end Scsv
